@@ -114,3 +114,55 @@ Definition stack_model (cfg : ecfg) (ps : list piece) : obs :=
 Definition stack_mismatches (cases : list (N * (ecfg * list piece) * obs)) : list N :=
   map (fun '(i, _, _) => i)
       (filter (fun '(_, (cfg, ps), e) => negb (obs_eqb (stack_model cfg ps) e)) cases).
+
+(* ---------- C19 at the session level: a raw peer that never answers a PING (harness/src/stack.rs hbpeer) ---------- *)
+From RZ Require Import Model.HbActor.
+Inductive sev :=
+| SNetE (ps : list piece) (t : N)
+| STickE (t : N)
+| SDeadlineE (t : N)
+| SWroteE (t : N).
+Definition sev_aev (e : sev) : aev :=
+  match e with
+  | SNetE ps t => ANet (concat (map piece_bytes ps)) (ms t)
+  | STickE t => ATick (ms t)
+  | SDeadlineE t => ADeadline (ms t)
+  | SWroteE t => AWrote (ms t)
+  end.
+Definition sev_time (e : sev) : N := match e with SNetE _ t | STickE t | SDeadlineE t | SWroteE t => t end.
+Definition has_send (o : list eout) : bool := existsb (fun x => match x with OSend _ _ => true | _ => false end) o.
+
+(* (time of the first PING, time at which the session gave up) over a nominal timeline *)
+Fixpoint sess_scan (cfg : ecfg) (s : ast) (es : list sev) (ping fatal : option N) : option N * option N :=
+  match es with
+  | [] => (ping, fatal)
+  | e :: rest =>
+      let '(s1, o) := a_step cfg s (sev_aev e) in
+      let ping' := match ping, e with
+                   | None, STickE t => if has_send o then Some t else None
+                   | _, _ => ping
+                   end in
+      let fatal' := match fatal, a_fatal s, a_fatal s1 with
+                    | None, None, Some _ => Some (sev_time e)
+                    | _, _, _ => fatal
+                    end in
+      sess_scan cfg s1 rest ping' fatal'
+  end.
+Definition hb_session_model (cfg : ecfg) (es : list sev) : obs :=
+  let '(p, f) := sess_scan cfg (a_new 0) es None None in
+  [[97; match p with Some _ => 1 | None => 0 end; match f with Some _ => 1 | None => 0 end;
+    match p with Some t => t | None => 0 end;
+    match p, f with Some t, Some u => u - t | _, _ => 0 end]].
+(* observed row [97; ping_seen; closed; ping_ms; close_ms - ping_ms; sent]: same PING / close verdict as the model,
+   the PING within (ivl - lo .. 2 ivl + hi] of the handshake, the close within [window - lo, window + hi] of the PING *)
+Definition hb_session_agrees (cfg : ecfg) (es : list sev) (ivl lo hi : N) (e : obs) : bool :=
+  match hb_session_model cfg es, e with
+  | [[_; mp; mf; _; mwin]], [[97; p; f; pms; win; _]] =>
+      (mp =? p) && (mf =? f) &&
+      (if p =? 1 then (ivl <=? pms + lo) && (pms <=? 2 * ivl + hi) else true) &&
+      (if (p =? 1) && (f =? 1) then (mwin <=? win + lo) && (win <=? mwin + hi) else true)
+  | _, _ => false
+  end.
+Definition hbs_mismatches (cases : list (N * (ecfg * list sev * N * N * N) * obs)) : list N :=
+  map (fun '(i, _, _) => i)
+      (filter (fun '(_, (cfg, es, ivl, lo, hi), e) => negb (hb_session_agrees cfg es ivl lo hi e)) cases).
